@@ -1165,6 +1165,12 @@ impl ConfigState {
     /// - check that the new entry is present in the certificates hashmap
     fn replace_certificate(&mut self, replace: &ReplaceCertificate) -> Result<(), StateError> {
         let replace_address = replace.address.into();
+        // Store the certificate the way `add_certificate` does (names resolved),
+        // so that the saved state replays to the same configuration.
+        let mut new_certificate = replace.new_certificate.clone();
+        new_certificate
+            .apply_overriding_names()
+            .map_err(|names_err| StateError::ReplaceCertificate(names_err.to_string()))?;
         let old_fingerprint = Fingerprint(
             hex::decode(&replace.old_fingerprint)
                 .map_err(|decode_error| StateError::RemoveCertificate(decode_error.to_string()))?,
@@ -1195,7 +1201,7 @@ impl ConfigState {
 
         self.certificates
             .get_mut(&replace_address)
-            .map(|certs| certs.insert(new_fingerprint.clone(), replace.new_certificate.clone()));
+            .map(|certs| certs.insert(new_fingerprint.clone(), new_certificate));
 
         if !self
             .certificates
